@@ -106,11 +106,17 @@ def find_impls(clean, header):
 def find_item_block(src, clean, kw, name):
     m = re.search(r'\b' + kw + r'\s+' + re.escape(name) + r'\b', clean)
     if not m: raise LostAnchor('%s `%s` not found' % (kw, name))
-    bo = clean.index('{', m.start()); semi = clean.find(';', m.start())
-    if 0 <= semi < bo:
-        return src[m.start():semi + 1]
-    bc = match_brace(clean, bo)
-    return src[m.start():bc + 1]
+    depth = 0; k = m.end()
+    while k < len(clean):
+        c = clean[k]
+        if c == '{' and depth == 0:
+            return src[m.start():match_brace(clean, k) + 1]
+        if c in '([': depth += 1
+        elif c in ')]': depth -= 1
+        elif c == ';' and depth == 0:
+            return src[m.start():k + 1]
+        k += 1
+    raise LostAnchor('%s `%s`: no body' % (kw, name))
 
 
 def find_const(src, clean, name, scope=(0, None)):
@@ -197,6 +203,9 @@ def extract_fn(repo, default_file, f):
             elif ch == '}': depth -= 1
             elif ch == ';' and depth == 1: last = k
         inserts.append(((last + 1) if last is not None else 1, '\n        proof {\n' + f['before_tail'].rstrip() + '\n        }'))
+    if f.get('at_end'):
+        # only for functions without a tail expression: ghost block just before the closing brace
+        inserts.append((len(body) - 1, '    proof {\n' + f['at_end'].rstrip() + '\n    }\n'))
     for bs in f.get('before_stmt', []):
         # last resort: anchor on normalised statement text
         idx = body.find(bs['text'])
